@@ -9,22 +9,24 @@ from gv.model import dbutil
 ID = "C14"
 RULE = (
     "One part; shards = input form x checklines x length x first one or two line kinds. Every sequence of length 0..4 (quick) / 0..5 "
-    "(thorough) over 9 line kinds {##directive, ###, bare ##, #comment, #! pragma comment, blank, feature, ##FASTA, >header} (a "
-    "sequence line is appended after a FASTA marker or header) x checklines {0,1,10} x input form {path, from_string; the empty string "
-    "is skipped}; additionally a gzip path with CRLF line ends for lengths 0..3 at checklines 1, and in thorough all sequences of "
-    "length 6 for path input with checklines 0 and 1. Directive texts alternately end in a blank or hold U+0085; comment lines hold "
-    "U+2028 followed by feature-looking text, pragma comments a form feed followed by '##...' (none of these is a line end). Feature "
-    "lines are written as GTF when length+checklines is odd (not for the gzip form). Each execution drives DataIterator (iterated "
-    "twice, and a third time after a second iterator over another input was created and consumed; each keeps its own directives), "
-    "create_db(:memory:) and create_db(file)+reopen; directives (in order, text after '##' verbatim) and printed features are compared "
-    "with a reference classifier written from the statement; create_db must raise EmptyInputError exactly when there is no feature "
-    "line. Non-trivial = a directive lies after the first checklines+1 features, or something follows a FASTA marker/header, or "
-    "comments/blanks occur together with features."
+    "(thorough) over 10 line kinds {##directive, ###, bare ##, #comment, #! pragma comment, blank, feature, ##FASTA, >header, "
+    "'##FASTA-index ...' (an ordinary directive: only the exact line ##FASTA starts the sequence part)} (a sequence line is appended "
+    "after a FASTA marker or header) x checklines {0,1,10} x input form {path, from_string; the empty string is skipped}; additionally "
+    "a gzip path with CRLF line ends for lengths 0..3 at checklines 1, and in thorough all sequences of length 6 for path input with "
+    "checklines 0 and 1. Directive texts alternately end in a blank or hold U+0085; comment lines hold U+2028 followed by "
+    "feature-looking text, pragma comments a form feed followed by '##...' (none of these is a line end). Feature lines are written as "
+    "GTF when length+checklines is odd (not for the gzip form). Each execution drives DataIterator (iterated twice, and a third time "
+    "after a second iterator over another input was created and consumed; each keeps its own directives), create_db(:memory:) and "
+    "create_db(file)+reopen; directives (in order, text after '##' verbatim) and printed features are compared with a reference "
+    "classifier written from the statement; create_db must raise EmptyInputError exactly when there is no feature line. Non-trivial = a "
+    "directive lies after the first checklines+1 features, or something follows a FASTA marker/header, or comments/blanks occur "
+    "together with features."
 )
 ASSUMPTIONS = [
     "'###' begins with '##' and is therefore a directive '#', as the statement words it",
     "an input without any feature line makes create_db raise the documented empty-input error; nothing else may raise",
     "the empty text is not given as from_string input (an empty string is taken for a path)",
+    "only the exact line '##FASTA' (or a '>' header) starts the sequence part; a directive whose text merely begins with FASTA is a directive",
 ]
 
 KINDS = "DTECPBFAHG"     # E = a bare "##" line (directive with empty text); P = a "#!pragma" comment; G = a directive whose text merely begins with FASTA
